@@ -69,8 +69,8 @@ func DecodePicTimingHevcSEI(sd *SEIData, exPar HEVCPicTimingParams) (SEIMessage,
 					// every decoding unit takes at least one bit of the payload
 					return nil, fmt.Errorf("num_decoding_units_minus1 %d larger than the SEI payload", pt.NumDecodingUnitsMinus1)
 				}
-				pt.NumNalusInDuMinus1 = make([]uint32, pt.NumDecodingUnitsMinus1+1)
-				pt.DuCpbRemovalDelayIncrementMinus1 = make([]uint32, pt.NumDecodingUnitsMinus1+1)
+				pt.NumNalusInDuMinus1 = make([]uint32, int(pt.NumDecodingUnitsMinus1)+1)
+				pt.DuCpbRemovalDelayIncrementMinus1 = make([]uint32, int(pt.NumDecodingUnitsMinus1)+1)
 				for i := uint32(0); i <= pt.NumDecodingUnitsMinus1; i++ {
 					pt.NumNalusInDuMinus1[i] = uint32(br.ReadExpGolomb())
 					if !pt.DuCommonCpbRemovalDelayFlag && i < pt.NumDecodingUnitsMinus1 {
